@@ -3,7 +3,7 @@
    (lexer -> token stream -> parser -> transforms), proofs in proofs/StmtExamples.v. *)
 From Coq Require Import List NArith Bool Arith.
 Import ListNotations.
-From PV Require Import Regex Base LexTables NodeModel ParserBase ParserDecl ParserMain Api StmtExamples AstSpec StmtProofs.
+From PV Require Import Regex Base LexTables NodeModel ParserBase ParserDecl ParserMain Api StmtExamples AstSpec StmtProofs ElseProofs.
 
 (* the else belongs to the nearest unmatched if (C99 6.8.4.1p3) *)
 Theorem C05_dangling_else :
@@ -50,3 +50,19 @@ Theorem C05_switch_regroup_correct : forall (P: Type) cs items cur fuel st,
   = Ok (regroup_spec P cs items cur, st).
 Proof. exact switch_regroup_correct. Qed.
 Print Assumptions C05_switch_regroup_correct.
+
+(* an else belongs to the nearest if, on the whole-parser model, for every token stream, state and fuel:
+   the if-production tries `else` immediately after its then-statement; when it does not take one, the
+   token following the finished If node is not `else` (so no else is ever left for an enclosing if) *)
+Theorem C05_else_binds_to_nearest_if : forall (P: Type) f s r s' t s0,
+  p_selection_statement P (S f) s = Ok (r, s') ->
+  advance P s = Ok (t, s0) -> kind_eqb (tk t) K_IF = true ->
+  exists cond th sa el sb co,
+    accept P K_ELSE sa = Ok (el, sb) /\
+    match el with
+    | Some e => kind_eqb (tk e) K_ELSE = true /\ exists es, r = mkN P C_If [cond; th; es] co
+    | None => r = mkN P C_If [cond; th; VNone] co /\ s' = sb /\
+              forall t1 s1, peek P s' = Ok (Some t1, s1) -> kind_eqb (tk t1) K_ELSE = false
+    end.
+Proof. exact else_binds_to_nearest_if. Qed.
+Print Assumptions C05_else_binds_to_nearest_if.
